@@ -16,7 +16,7 @@ replacing, and the vanished-key arms compare against retirement_timestamp() befo
 retired_at, refcount = 0 and link_successor are written only with the bucket guard held, and retired_at only by the three
 removal paths. Not decided: linearizability of histories.
 """
-DECIDED = ['a creator that lost the race for the bucket is judged again against the winner before it answers', 'expiry inside increment / CAS is judged against the wall clock every reader uses (shared with C11.pred)', "pointer-identity re-validation before replace/remove", "retirement_timestamp comparison for raced writers",
+DECIDED = ['an upsert whose target vanished under it (replace step answered KeyNotFound) re-reads the table before answering, in both upsert loops, for explicit and automatic timestamps alike', 'a creator that lost the race for the bucket is judged again against the winner before it answers', 'expiry inside increment / CAS is judged against the wall clock every reader uses (shared with C11.pred)', "pointer-identity re-validation before replace/remove", "retirement_timestamp comparison for raced writers",
            "retirement stamps / successor links only under the bucket guard",
            'a lost compare-exchange of the version clock is retried and its result examined',
            'retirement_timestamp walks the whole successor chain']
@@ -273,6 +273,43 @@ def check_create_race(ctx, inst="C07.create-race"):
                       None if not bad else {"witness": R.witness(b, ps, r.get(bad[0]))})
 
 
+def check_vanished_retry(ctx, inst="C07.vanished-retry"):
+    """(added after C07-i) the replace step answers KeyNotFound from its vacant arm only after it has found the incoming timestamp
+    newer than everything the vanished generation was retired with: this writer is the last writer and must go round again and
+    create the key. Both upsert loops: from the `Err(KeyNotFound)` edge of the replace step's result no return is reachable
+    before the table is looked at again - whatever the kind of timestamp (a guard such as `if !explicit_timestamp` on that arm
+    refuses a newest explicit-timestamp write because of an older delete, which is not a permitted deviation)."""
+    n_edges = 0
+    for fn, step in (("FeoxStore::insert_with_timestamp_and_ttl_internal", "FeoxStore::update_record_with_ttl"),
+                     ("FeoxStore::insert_bytes_with_expiry", "FeoxStore::update_record_with_ttl_bytes")):
+        b = ctx.fn(fn, inst)
+        if b is None:
+            continue
+        steps = ctx.sites(b, R.call_or_thin_helper(step), inst, floor=1, what="replace step " + step.rsplit("::", 1)[-1])
+        if not steps:
+            continue
+        reads = {n.id for n in b.calls() if any(R.call_matches(n.ev, h) for h in ("HashMap::read", "HashMap::get", "HashMap::entry", "HashMap::read_async")) and
+                 R.recv_expr(b, n).has_field("FeoxStore", "hash_table")}
+        found = 0
+        for s_ in A.switches(b):
+            info = A.switch_info(b, s_)
+            if not any(c.nid in steps for c in info.root.calls()):
+                continue
+            for lab, v in info.edge_vals.items():
+                if v != "KeyNotFound":
+                    continue
+                found += 1
+                others = {(s_, l) for l in info.edge_vals if l != lab}
+                r, ps = A.reach(b, [s_], blocked_nodes=reads, blocked_edges=others)
+                bad = [x for x in b.return_nodes() if x in r]
+                ctx.check(not bad, inst, "FOLLOW", b.path,
+                          "an upsert whose target vanished under it (replace step = KeyNotFound) looks at the table again before it answers, for every kind of timestamp",
+                          b.where(s_), None if not bad else {"witness": R.witness(b, ps, r.get(bad[0]))})
+        n_edges += found
+        ctx.check(found >= 1, inst, "anchor", b.path, "the KeyNotFound outcome of the replace step is told apart (found %d)" % found, None)
+    ctx.check(n_edges >= 2, inst, "anchor", "-", "both upsert loops retry on a vanished target (found %d)" % n_edges, None)
+
+
 def check_expiry_clock(ctx):
     """increment / CAS / upsert judge `expired` against the wall clock every reader uses; a test against the version clock (which
     an explicit future timestamp pushes ahead) restarts a counter other operations still see as live (same rule as C11.pred)"""
@@ -282,6 +319,7 @@ def check_expiry_clock(ctx):
 
 def check(ctx):
     check_create_race(ctx)
+    check_vanished_retry(ctx)
     check_expiry_clock(ctx)
     check_clock(ctx)
     check_retirement_walk(ctx)
